@@ -274,6 +274,16 @@ def targets_leg(ck, tier, rnd):
                     sc['argv'] = ['-jj' if a == '-j' else a for a in sc['argv']]
                 scs.append(sc)
                 meta.append((threads, tuple(o), labels))
+    # the same target on two lines: still one document per line
+    for fmt in ('-j', '-jj'):
+        sc, labels = multi.scenario(tg, 1, (0, 1, 2), json_out=True)
+        sc['argv'] = [fmt if a == '-j' else a for a in sc['argv']]
+        first = sc['files']['targets.txt'].split('\n')[0]
+        sc['files']['targets.txt'] = sc['files']['targets.txt'] + first + '\n'
+        sc.pop('setup', None)
+        sc['observe'] = False
+        scs.append(sc)
+        meta.append((1, ('repeated-line', fmt), labels + [labels[0]]))
     results = runner.run_many(scs)
     ref = {}
     for sc, (threads, o, labels), r in zip(scs, meta, results):
@@ -288,6 +298,12 @@ def targets_leg(ck, tier, rnd):
         except (ValueError, AssertionError):
             cause = 'empty-elements' if r['stdout'].replace(' ', '').replace('\n', '') in ('[,,]', '[,]', '[]') else 'unparsable'
             ck.violation('target-list-json-broken cause=%s opts=%s' % (cause, _optkind(o)), 'stdout of -T -j %s is not a JSON array of documents: %r' % (tag, r['stdout'][:120]), replay)
+            continue
+        if o and o[0] == 'repeated-line':
+            if len(doc) != len(labels) or not all(isinstance(e, dict) for e in doc):
+                ck.violation('target-list-json-elements repeated-line', 'a target listed twice with %s: %d documents for %d lines' % (o[1], len(doc), len(labels)), replay)
+            else:
+                ck.cov['traces_validated_against_impl'] += 1
             continue
         byt = {}
         for el in doc:
